@@ -1,6 +1,7 @@
 package rules
 
 import (
+	"fmt"
 	"sort"
 	"strings"
 
@@ -215,4 +216,67 @@ func (c *Ctx) c19KeyAgreement() {
 		}
 	}
 	r.Floor("R19.5", "btree operations attributed to an index", nSites, 12)
+}
+
+// c19RecordedKey: R19.5 (second part) - an index wrapper that records the timestamp component of its keys in a
+// side map (items[account-nonce] = time) deletes an index entry under the recorded time, not under a new one.
+func (c *Ctx) c19RecordedKey() {
+	r := c.R
+	n := 0
+	for _, fn := range c.P.ModuleFuncs(true) {
+		if core.PkgOf(fn) != "pkg/order/mempool" || len(fn.Blocks) == 0 || fn.Signature.Recv() == nil {
+			continue
+		}
+		for _, call := range core.Calls(fn) {
+			o := core.CalleeObj(call)
+			if o == nil || o.Name() != "Delete" || !strings.Contains(core.CalleeName(call), "btree") {
+				continue
+			}
+			_, idxField, base, ok := core.FieldOf(core.Receiver(call))
+			if !ok || idxField != "index" || len(call.Common().Args) == 0 {
+				continue
+			}
+			// does the owner keep a side map `items`?
+			hasItems := false
+			for _, b := range fn.Blocks {
+				for _, in := range b.Instrs {
+					if v, isV := in.(ssa.Value); isV {
+						if _, f, b2, okf := core.FieldOf(v); okf && f == "items" && sameValue(b2, base) {
+							hasItems = true
+						}
+					}
+				}
+			}
+			al, isAlloc := core.Strip(call.Common().Args[len(call.Common().Args)-1]).(*ssa.Alloc)
+			if mi, isMI := call.Common().Args[len(call.Common().Args)-1].(*ssa.MakeInterface); isMI {
+				al, isAlloc = core.Strip(mi.X).(*ssa.Alloc)
+			}
+			if !hasItems || !isAlloc || al.Referrers() == nil {
+				continue
+			}
+			var ts ssa.Value
+			for _, ref := range *al.Referrers() {
+				if fa, isFA := ref.(*ssa.FieldAddr); isFA {
+					if _, fld, _, okf := core.FieldOf(fa); okf && fld == "timestamp" && fa.Referrers() != nil {
+						for _, r2 := range *fa.Referrers() {
+							if st, isSt := r2.(*ssa.Store); isSt && st.Addr == ssa.Value(fa) {
+								ts = st.Val
+							}
+						}
+					}
+				}
+			}
+			if ts == nil {
+				continue
+			}
+			n++
+			fromItems := core.Mentions(ts, func(v ssa.Value) bool {
+				lk, isLk := v.(*ssa.Lookup)
+				return isLk && core.Mentions(lk.X, fieldNamed("items"))
+			})
+			r.Check(fromItems, "R19.5", fmt.Sprintf("%s: index entry deleted under the recorded time #%d", shortFn(fn), n), c.P.Pos(call.Pos()), "the timestamp of the deleted key is the value looked up in items",
+				"the index entry is deleted under a key whose time is not the one recorded in items for this (account, nonce): the delete misses, the stale entry stays in the index and a later sweep measures the age of the replacement transaction with the old arrival time (a young transaction is evicted)")
+		}
+	}
+	r.Floor("R19.5", "deletes on indices that record their key time", n, 2)
 }
